@@ -53,7 +53,7 @@ def run(ctx):
     from fast_ticc import likelihood as lk
     from fast_ticc.containers import model_state, arguments
     rng = np.random.default_rng(ctx.seed)
-    ctx.proof_layer(allowed_axioms=core.R_AX, coq_deps=["Corr/RunAccounting"], gen=["likelihood"])
+    ctx.proof_layer(allowed_axioms=core.R_AX, coq_deps=["Corr/RunAccounting"], gen=["likelihood", "ll_point", "ll_table"])
     core.note_drift(ctx, ANCHORS)
     cov = core.LineCoverage()
     lits, meta = [], []
